@@ -14,10 +14,10 @@ import (
 // a caller hands to New when all it has is a reader. It forwards reads to a MemDev.
 type c11ROFile struct{ d *vpdev.MemDev }
 
-func (f c11ROFile) Stat() (fs.FileInfo, error)                 { return f.d.Stat() }
-func (f c11ROFile) Read(p []byte) (int, error)                 { return f.d.Read(p) }
-func (f c11ROFile) Close() error                               { return nil }
-func (f c11ROFile) ReadAt(p []byte, off int64) (int, error)    { return f.d.ReadAt(p, off) }
+func (f c11ROFile) Stat() (fs.FileInfo, error)                { return f.d.Stat() }
+func (f c11ROFile) Read(p []byte) (int, error)                { return f.d.Read(p) }
+func (f c11ROFile) Close() error                              { return nil }
+func (f c11ROFile) ReadAt(p []byte, off int64) (int, error)   { return f.d.ReadAt(p, off) }
 func (f c11ROFile) Seek(off int64, whence int) (int64, error) { return f.d.Seek(off, whence) }
 
 // VP_C11_file_writable: New(f, readOnly).Writable() for an arbitrary readOnly flag over a file
